@@ -132,6 +132,18 @@ class Tokenizer:
             "normalize and do unicodesub"
             return normalize(self.unicodesub(_repl, value))
 
+        def _decodeall(m):
+            "used by unicodesub: every escape is resolved, and only once"
+            if m.group(1) is not None:
+                return _repl(m)
+            elif m.group(2) is not None:
+                return ''
+            return m.group(0)[1:]
+
+        def _keyword(value):
+            "the keyword a name spells, e.g. ``@m\\65 dia`` is ``@media``"
+            return self.unicodesub(_decodeall, value).lower()
+
         line = col = 1
         # The current starting character. We just increase this instead of
         # splitting off the beginning of text to increase performance.
@@ -177,9 +189,18 @@ class Tokenizer:
                         # before CHAR production test for incomplete comment
                         possiblecomment = '%s*/' % text[pos:]
                         match = self.commentmatcher(possiblecomment)
-                        if match and self._doComments:
-                            yield ('COMMENT', possiblecomment, line, col)
-                            pos = _len_text  # ate all remaining text
+                        if match:
+                            if self._doComments:
+                                yield ('COMMENT', possiblecomment, line, col)
+                            # ate all remaining text, EOF is behind it
+                            rest = text[pos:]
+                            nls = rest.count(self._linesep)
+                            line += nls
+                            if nls:
+                                col = len(rest[rest.rfind(self._linesep) :])
+                            else:
+                                col += len(rest)
+                            pos = _len_text
                             break
 
                     match = matcher(text, pos)  # if no match try next production
@@ -195,7 +216,7 @@ class Tokenizer:
                         # ident is "and"
                         if (
                             name == 'IDENT'
-                            and found.lower() != "and"
+                            and _keyword(found) != "and"
                             and match.end(0) < len(text)
                             and text[match.end(0)] == '('
                         ):
@@ -242,7 +263,7 @@ class Tokenizer:
                             if 'ATKEYWORD' == name:
                                 try:
                                     # get actual ATKEYWORD SYM
-                                    name = self._atkeywords[_normalize(found)]
+                                    name = self._atkeywords[_keyword(found)]
                                 except KeyError:
                                     # might also be misplace @charset...
                                     if '@charset' == found and has_at(
